@@ -84,6 +84,7 @@ fn main() {
         "dead_window" => routing::dead_window(&args),
         "factory_drain" => worker::factory_drain(&args),
         "factory_queuer" => worker::factory_queuer(&args),
+        "factory_stale" => worker::factory_stale(&args),
         "outport" => outport::run(&args),
         "pg" => pg::run(&args),
         "pg_race" => pg::race(&args),
